@@ -2,6 +2,8 @@ SPECIFICATION Spec
 CONSTANTS
   MaxSet = 2
   Bases <- BasesEme
+  SendModes <- NoSends
+  PlainApis <- NoSends
   Ordered = TRUE
 INVARIANTS TypeOK NoLeak Partition Recovered
 ACTION_CONSTRAINT EmitBehaviour
